@@ -27,7 +27,8 @@ HIST = os.path.join(os.path.dirname(os.path.dirname(os.path.abspath(__file__))),
 NPROC = int(os.environ.get('VERIF_JOBS', '0')) or min(12, os.cpu_count() or 4)
 
 RULE = ('call histories: quick 2 000 / thorough 100 000 random sequences of 1..12 API calls over a pool of ~45 shared '
-        'objects (flat and bootstrapped curves, instrument lists, BlackScholes DEFAULT/ANALYTICAL/CRR/BAW, Black, HW/BK/BDT '
+        'objects; 30 % of the histories are LADDERS - consecutive calls on one object that differ in exactly one input (spot / '
+        'one curve / model / date / method) with all the others equal; (flat and bootstrapped curves, instrument lists, BlackScholes DEFAULT/ANALYTICAL/CRR/BAW, Black, HW/BK/BDT '
         'trees, bonds, callable bond, swap legs, swap, swaption, cap/floor, equity/FX vanillas, American option, calendars, '
         'schedule) and process settings (date format changes, date-table extension by constructing years up to 2300); every '
         "call's result compared bit-for-bit with the same call on freshly constructed objects in another process, a sample "
@@ -172,7 +173,7 @@ def make_pool(rng):
         'bond': new('Bond', D(issue), D(mat), cpn, E('FrequencyTypes', bfreq), E('DayCountTypes', bdc)),
         'bond2': new('Bond', D(issue), D(mplus(mat, 24)), cpn + 0.01, E('FrequencyTypes', 'SEMI_ANNUAL'),
                      E('DayCountTypes', 'ACT_ACT_ICMA'), rng.choice([0, 0, 5])),
-        'beo': new('BondEmbeddedOption', D(issue), D(mat), cpn, E('FrequencyTypes', bfreq), E('DayCountTypes', bdc),
+        'beo': new('BondEmbeddedOption', D(issue), D(mplus(vd, 60)), cpn, E('FrequencyTypes', bfreq), E('DayCountTypes', bdc),
                    ['L', [D(mplus(vd, 12)), D(mplus(vd, 24))]], ['L', [102.0, 101.0]],
                    ['L', [D(mplus(vd, 18))]], ['L', [98.0]]),
         'fixleg': new('SwapFixedLeg', D(st), D(mplus(st, 36)), E('SwapTypes', rng.choice(['PAY', 'RECEIVE'])), cpn,
@@ -198,6 +199,28 @@ def make_pool(rng):
                     R('cf2'), 0.4),
         'cds': new('CDS', R('vd'), '5Y', 0.01),
         'heston': new('Heston', 0.04, 1.5, 0.05, 0.4, -0.6),
+        # bumped copies of the flat curves (same value date => same time grid), a second analytical model, the other
+        # rate-option models, and the products whose caches are keyed by market data
+        'cfAh': new('DiscountCurveFlat', R('vd'), round(rA + 0.01, 4)),
+        'cfBh': new('DiscountCurveFlat', R('vd'), round(rB + 0.01, 4)),
+        'bsA2': new('BlackScholes', round(vol + 0.07, 3), E('BlackScholesTypes', 'ANALYTICAL')),
+        'blkS': new('BlackShifted', vol, 0.01),
+        'bach': new('Bachelier', 0.006),
+        'sabr': new('SABR', 0.03, 0.5, -0.3, 0.4),
+        'sabrS': new('SABRShifted', 0.03, 0.5, -0.3, 0.4, 0.01),
+        'bondL': new('Bond', D(issue), D(mplus(vd, 96)), cpn, E('FrequencyTypes', 'SEMI_ANNUAL'), E('DayCountTypes', 'ACT_ACT_ICMA')),
+        'bopt': new('BondOption', R('bondL'), D(mplus(vd, 18)), 100.0, E('OptionTypes', 'EUROPEAN_CALL')),
+        'boptA': new('BondOption', R('bondL'), D(mplus(vd, 18)), 100.0, E('OptionTypes', 'AMERICAN_PUT')),
+        'fxF': new('FXForward', D(exp), 1.12, 'EURUSD', 1e6, 'USD'),
+        'fxB': new('FXBarrierOption', D(exp), 1.1, 'EURUSD', E('FinFXBarrierTypes', 'UP_AND_OUT_CALL'), 1.45, 252, 1e6, 'USD'),
+        'fxD': new('FXDigitalOption', D(exp), 1.1, 'EURUSD', E('OptionTypes', 'DIGITAL_CALL'), 1e6, 'USD'),
+        'fxT': new('FXOneTouchOption', D(exp), E('TouchOptionTypes', 'UP_AND_IN_CASH_AT_EXPIRY'), 1.4, 1e6),
+        'eqCo': new('EquityCompoundOption', D(mplus(vd, 6)), E('OptionTypes', 'EUROPEAN_CALL'), 5.0, D(mplus(vd, 18)),
+                    E('OptionTypes', 'EUROPEAN_PUT'), K),
+        'eqB': new('EquityBarrierOption', D(exp), K, E('EquityBarrierTypes', 'DOWN_AND_OUT_CALL'), 60.0),
+        'eqD': new('EquityDigitalOption', D(exp), K, E('OptionTypes', 'EUROPEAN_CALL'), E('FinDigitalOptionTypes', 'CASH_OR_NOTHING')),
+        'eqT': new('EquityOneTouchOption', D(exp), E('TouchOptionTypes', 'UP_AND_IN_CASH_AT_EXPIRY'), 160.0, 10.0),
+        'eqCh': new('EquityChooserOption', D(mplus(vd, 6)), D(mplus(vd, 18)), D(mplus(vd, 18)), K, K),
         'krates': ['L', [round(rA + 0.001 * i, 5) for i in range(2)]],
         'ktenors': ['A', [1.0, 3.0]],
         'qdates': ['L', [D(mplus(vd, k)) for k in (1, 7, 13, 30)]],
@@ -412,7 +435,7 @@ def gen_op(rng, f, state):
     if k < 96 and rng.random() < 0.35:
         v, ic = rng.choice([('vd', 'cdsA'), ('vd', 'cdsA'), ('vd2', 'cds2')])
         m = rng.choice(['value', 'risky_pv01', 'par_spread', 'premium_leg_pv', 'prot_leg_pv'])
-        return OP('cds', m, [R(v), R(ic)], cls='CDS', tag='cds')
+        return OP('cds', m, [R(v), R(ic)] + ([0.4] if m == 'value' else []), cls='CDS', tag='cds')
     if k < 96:
         mdl = rng.choice(['blk', 'blk', 'hw', 'hwJ', 'bk', 'bdt'])
         if rng.random() < 0.2:
@@ -425,7 +448,120 @@ def gen_op(rng, f, state):
     return OP(o, 'value', [val_dt(), curve(), R(rng.choice(['blk', 'blk', 'hw']))], cls='IborCapFloor', tag='cap')
 
 
+def ladder_templates(f):
+    """call templates for the one-input-at-a-time histories: an object (or function), its methods with the order of
+    their argument slots, and the alternatives of every slot.  A slot value ('multi', [...]) expands to several
+    arguments (inputs that only make sense together, e.g. a valuation date and the issuer curve anchored on it)."""
+    vd = f['vd']
+    eqargs = ['date', 'spot', 'disc', 'div', 'model']
+    eqslots = {'date': [R('vd')], 'spot': [90.0, 100.0, 110.0], 'disc': [R('cfA'), R('cfAh')], 'div': [R('cfB'), R('cfBh')],
+               'model': [R('bsA'), R('bsA2')]}
+    fxslots = {'date': [R('vd')], 'spot': [1.1, 1.2], 'disc': [R('cfA'), R('cfAh')], 'div': [R('cfB'), R('cfBh')],
+               'model': [R('bsA'), R('bsA2')]}
+    T = []
+    for o, cls, ms in (('eqC', 'EquityVanillaOption', ['value', 'delta', 'gamma', 'vega', 'theta', 'rho']),
+                       ('eqP', 'EquityVanillaOption', ['value', 'delta', 'gamma', 'vega', 'theta', 'rho']),
+                       ('eqCo', 'EquityCompoundOption', ['value', 'delta', 'vega']), ('eqB', 'EquityBarrierOption', ['value', 'delta', 'vega']),
+                       ('eqD', 'EquityDigitalOption', ['value', 'delta', 'vega']), ('eqT', 'EquityOneTouchOption', ['value', 'delta', 'vega']),
+                       ('eqCh', 'EquityChooserOption', ['value', 'delta', 'vega'])):
+        T.append({'o': o, 'cls': cls, 'tag': 'eq', 'methods': {m: eqargs for m in ms}, 'slots': eqslots})
+    T.append({'o': 'eqAm', 'cls': 'EquityAmericanOption', 'tag': 'eq', 'methods': {'value': eqargs},
+              'slots': dict(eqslots, model=[R('bsT'), R('bsB'), R('bsD')])})
+    for o, cls, ms in (('fxC', 'FXVanillaOption', ['value', 'delta', 'gamma', 'vega', 'theta']),
+                       ('fxP', 'FXVanillaOption', ['value', 'delta', 'gamma', 'vega', 'theta']),
+                       ('fxB', 'FXBarrierOption', ['value', 'delta', 'vega']), ('fxD', 'FXDigitalOption', ['value']),
+                       ('fxT', 'FXOneTouchOption', ['value', 'delta', 'vega'])):
+        T.append({'o': o, 'cls': cls, 'tag': 'fx', 'methods': {m: eqargs for m in ms}, 'slots': fxslots})
+    T.append({'o': 'fxF', 'cls': 'FXForward', 'tag': 'fx', 'methods': {'value': ['date', 'spot', 'disc', 'div']}, 'slots': fxslots})
+    capmodels = [R('blk'), R('blkS'), R('bach'), R('sabr'), R('sabrS'), R('hw')]
+    for o in ('cap', 'flr'):
+        T.append({'o': o, 'cls': 'IborCapFloor', 'tag': 'cap',
+                  'methods': {'value': ['date', 'curve', 'model'], 'value_caplet_floor_let': ['date', 'cs', 'ce', 'curve', 'model']},
+                  'slots': {'date': [R('vd'), R('vd2')], 'curve': [R('cfA'), R('cfAh'), R('ibc')], 'model': capmodels,
+                            'cs': [D(mplus(vd, 6))], 'ce': [D(mplus(vd, 9))]}})
+    T.append({'o': 'swpt', 'cls': 'IborSwaption', 'tag': 'swaption', 'methods': {'value': ['date', 'curve', 'model']},
+              'slots': {'date': [R('vd')], 'curve': [R('cfA'), R('cfAh'), R('ibc')],
+                        'model': [R('blk'), R('blkS'), R('sabr'), R('sabrS'), R('hw'), R('hwJ'), R('bk'), R('bdt')]}})
+    trees = [R('bk'), R('bdt'), R('hw'), R('hwJ'), R('hwE')]
+    for o in ('bopt', 'boptA'):
+        T.append({'o': o, 'cls': 'BondOption', 'tag': 'tree', 'methods': {'value': ['date', 'curve', 'model']},
+                  'slots': {'date': [R('vd')], 'curve': [R('cfA'), R('cfAh'), R('cfB')], 'model': trees}})
+    T.append({'o': 'beo', 'cls': 'BondEmbeddedOption', 'tag': 'tree', 'methods': {'value': ['date', 'curve', 'model']},
+              'slots': {'date': [R('vd'), R('vd2')], 'curve': [R('cfA'), R('cfAh'), R('ibc')], 'model': [R('hw'), R('bk'), R('hwJ')]}})
+    T.append({'o': None, 'cls': None, 'tag': 'tree',
+              'methods': {'tree_build_query': ['model', 'tm', 'times', 'dfs', 'texp', 'strike', 'face', 'ct', 'cf', 'ex']},
+              'slots': {'model': trees, 'tm': [3.0, 5.0], 'times': [['A', [0.0, 1.0, 5.0, 10.0]]],
+                        'dfs': [['A', [1.0, 0.97, 0.86, 0.74]], ['A', [1.0, 0.99, 0.95, 0.90]]], 'texp': [1.0], 'strike': [95.0, 102.0],
+                        'face': [100.0], 'ct': [['A', [0.5, 1.0, 1.5, 2.0, 2.5, 3.0]]], 'cf': [['A', [2.0] * 6]],
+                        'ex': [E('FinExerciseTypes', 'EUROPEAN'), E('FinExerciseTypes', 'AMERICAN')]}})
+    T.append({'o': 'fixleg', 'cls': 'SwapFixedLeg', 'tag': 'leg', 'methods': {'value': ['date', 'disc']},
+              'slots': {'date': [R('vd'), R('vd2')], 'disc': [R('cfA'), R('cfAh'), R('ibc')]}})
+    T.append({'o': 'fltleg', 'cls': 'SwapFloatLeg', 'tag': 'leg', 'methods': {'value': ['date', 'disc', 'index']},
+              'slots': {'date': [R('vd'), R('vd2')], 'disc': [R('cfA'), R('cfAh'), R('ibc')], 'index': [R('cfB'), R('cfC'), R('cfD'), None]}})
+    T.append({'o': 'swap', 'cls': 'IborSwap', 'tag': 'leg',
+              'methods': {'value': ['date', 'disc', 'index'], 'swap_rate': ['date', 'disc', 'index'], 'pv01': ['date', 'disc']},
+              'slots': {'date': [R('vd'), R('vd2')], 'disc': [R('cfA'), R('cfAh'), R('ibc')], 'index': [R('cfC'), R('cfD'), None]}})
+    cds_ = [c for c in f['cpn_dates'] if c >= vd] or f['cpn_dates']
+    settles = [R('vd'), R('vd2'), D(cds_[0]), D(dplus(cds_[0], -30)), D(dplus(cds_[0], 1))]
+    ytm = ['settle', 'ytm', 'conv']
+    T.append({'o': 'bond', 'cls': 'Bond', 'tag': 'bond',
+              'methods': {'accrued_interest': ['settle'], 'dirty_price_from_ytm': ytm, 'clean_price_from_ytm': ytm, 'modified_duration': ytm,
+                          'convexity_from_ytm': ytm, 'dirty_price_from_discount_curve': ['settle', 'curve'],
+                          'clean_price_from_discount_curve': ['settle', 'curve']},
+              'slots': {'settle': settles, 'ytm': [0.02, 0.05], 'curve': [R('cfA'), R('cfAh')],
+                        'conv': [E('YTMCalcType', x) for x in ('UK_DMO', 'US_STREET', 'US_TREASURY')]}})
+    T.append({'o': 'cds', 'cls': 'CDS', 'tag': 'cds',
+              'methods': dict({m: ['mkt'] for m in ('risky_pv01', 'par_spread', 'premium_leg_pv', 'prot_leg_pv')}, value=['mkt', 'rec']),
+              'slots': {'mkt': [('multi', [R('vd'), R('cdsA')]), ('multi', [R('vd2'), R('cds2')])], 'rec': [0.4]}})
+    T.append({'o': 'heston', 'cls': 'Heston', 'tag': 'heston',
+              'methods': {'value_mc': ['date', 'opt', 'spot', 'r', 'q', 'np', 'ns', 'seed']},
+              'slots': {'date': [R('vd')], 'opt': [R('eqC'), R('eqP')], 'spot': [80.0, 100.0, 120.0], 'r': [0.01, 0.05], 'q': [0.0, 0.02],
+                        'np': [500], 'ns': [20], 'seed': [42, 7]}})
+    ots = [E('OptionTypes', x) for x in ('EUROPEAN_CALL', 'EUROPEAN_PUT', 'AMERICAN_CALL', 'AMERICAN_PUT')]
+    for o in ('bsD', 'bsA', 'bsT'):
+        T.append({'o': o, 'cls': 'BlackScholes', 'tag': 'bs', 'methods': {'value': ['s', 't', 'k', 'r', 'q', 'ot']},
+                  'slots': {'s': [90.0, 100.0, 110.0], 't': [0.25, 1.0], 'k': [100.0, 105.0], 'r': [0.03, 0.05], 'q': [0.0, 0.01], 'ot': ots}})
+    T.append({'o': 'blk', 'cls': 'Black', 'tag': 'black',
+              'methods': {m: ['f', 'k', 't', 'df', 'ot'] for m in ('value', 'delta', 'gamma', 'vega', 'theta')},
+              'slots': {'f': [0.03, 0.04], 'k': [0.03, 0.05], 't': [0.5, 2.0], 'df': [0.95, 0.9], 'ot': ots[:2]}})
+    return T
+
+
+def make_ladder(rng, maxlen=12):
+    """a history in which consecutive calls on ONE object differ in exactly ONE input (or only in the method called) while
+    everything else stays equal - the shape that an incomplete cache key or a stale scratch attribute gets wrong"""
+    pool, facts = make_pool(rng)
+    tpl = rng.choice(ladder_templates(facts))
+    cur = {k: rng.choice(v) for k, v in tpl['slots'].items()}
+    meths = sorted(tpl['methods'])
+    m = rng.choice(meths)
+    free = [k for k, v in tpl['slots'].items() if len(v) > 1]
+
+    def emit():
+        args = []
+        for sl in tpl['methods'][m]:
+            v = cur[sl]
+            if isinstance(v, tuple) and v[0] == 'multi':
+                args += v[1]
+            else:
+                args.append(v)
+        return OP(tpl['o'], m, args, cls=tpl['cls'] or {'bk': 'BKTree', 'bdt': 'BDTTree'}.get(cur.get('model', [0, ''])[1], 'HWTree'),
+                  tag=tpl['tag'], meth=('build_tree+bond_option' if m == 'tree_build_query' else m), ladder=True)
+    ops = [emit()]
+    for _ in range(rng.randint(2, maxlen - 1)):
+        used = [k for k in free if k in tpl['methods'][m]]
+        if len(meths) > 1 and (not used or rng.random() < 0.3):
+            m = rng.choice([x for x in meths if x != m])
+        elif used:
+            k = rng.choice(used)
+            cur[k] = rng.choice([v for v in tpl['slots'][k] if v != cur[k]])
+        ops.append(emit())
+    return {'pool': pool, 'ops': ops, 'facts': facts}
+
+
 def make_history(rng, maxlen=12):
+    if rng.random() < 0.3:
+        return make_ladder(rng, maxlen)
     pool, facts = make_pool(rng)
     n = rng.randint(1, maxlen)
     state = {'fmt': 'UK_LONG'}
@@ -692,6 +828,18 @@ class Predictor:
             return out
         s = self.method(cls, m)
         if s is None:
+            # a product the extractor does not cover (BondOption, FX / equity exotics, …): it may call any public
+            # method of the anchored objects it is given (e.g. build_tree on a tree model), nothing else; its OWN scratch
+            # attributes are not judged (no summary to judge them against - the result comparison covers them)
+            out[op['o']] = {'*'}
+            for a in list(op.get('a', [])) + list(op.get('k', {}).values()):
+                if isinstance(a, list) and len(a) == 2 and a[0] == 'ref':
+                    c = self.eff['classes'].get(pool_class(pool, a[1]))
+                    if c:
+                        al = out.setdefault(a[1], set())
+                        for mm, sm in c['methods'].items():
+                            if sm['public'] and mm != '__init__':
+                                al |= set(sm['writes'])
             return out
         out[op['o']] = set(s['writes'])
         # methods called on attribute-held objects may change those objects (seen as a change of the attribute)
